@@ -65,6 +65,8 @@ type Event struct {
 	Wn   int    `json:"w,omitempty"`
 	Reqs []Req  `json:"reqs,omitempty"`
 	N    int    `json:"n,omitempty"`
+	Rnds int    `json:"rounds,omitempty"`
+	Pre  int    `json:"pre,omitempty"`
 }
 
 type Script struct {
@@ -170,8 +172,12 @@ func main() {
 		for r, w := range sc.Config.W {
 			w0[r] = w
 		}
-		tr.Add(vh.Ev{"ev": "config", "groups": sc.Config.Groups, "W": w0, "Allowed": sc.Config.Allowed,
-			"Pct": sc.Config.Pct, "DefBehav": sc.Config.DefBehav, "DefPct": sc.Config.DefPct})
+		cfgEv := vh.Ev{"ev": "config", "groups": sc.Config.Groups, "W": w0, "Allowed": sc.Config.Allowed,
+			"Pct": sc.Config.Pct, "DefBehav": sc.Config.DefBehav, "DefPct": sc.Config.DefPct}
+		if sc.Config.Status != nil {
+			cfgEv["Status"] = sc.Config.Status // configured rejection status per remedy (0 / absent = unset = 429)
+		}
+		tr.Add(cfgEv)
 		rn := &runner{cfg: sc.Config, rem: map[string]config.ScopedRemedy{}}
 		for r := range sc.Config.W {
 			rn.rem[r] = remedyOf(sc.Config, r)
@@ -203,20 +209,27 @@ func main() {
 				case "burst":
 					// n requests for one key handled one after the other at the same instant; only the number of passes is recorded
 					passes := 0
+					odd := ""
 					for i := 0; i < e.N; i++ {
-						switch rn.request(e.R, e.G) {
+						switch out := rn.request(e.R, e.G); out {
 						case "pass":
 							passes++
 						case "block":
 						default:
-							vh.Die("burst: unexpected action kind")
+							odd = out
 						}
 					}
-					tr.Add(vh.Ev{"ev": "batch", "r": e.R, "g": e.G, "n": e.N, "passes": passes})
+					tr.Add(vh.Ev{"ev": "batch", "kind": "burst", "r": e.R, "g": e.G, "n": e.N, "passes": passes})
+					if odd != "" {
+						// an answer that is neither a pass nor a rejection with the configured status: reported as what it is
+						// (the specification has no such outcome), not a reason to stop
+						tr.Add(vh.Ev{"ev": "req", "r": e.R, "g": e.G, "out": odd, "synthetic": true})
+					}
 				case "storm":
 					// n overlapping requests for one key; only the number of passes is recorded
 					var wg sync.WaitGroup
-					var arrived, passes, bad atomic.Int32
+					var arrived, passes atomic.Int32
+					var odd atomic.Value
 					for i := 0; i < e.N; i++ {
 						wg.Add(1)
 						go func() {
@@ -225,20 +238,79 @@ func main() {
 							for spins := 0; arrived.Load() < int32(e.N) && spins < 1_000_000; spins++ {
 								runtime.Gosched() // yield: all goroutines of the batch reach the real code together
 							}
-							switch rn.request(e.R, e.G) {
+							switch out := rn.request(e.R, e.G); out {
 							case "pass":
 								passes.Add(1)
 							case "block":
 							default:
-								bad.Add(1)
+								odd.Store(out)
 							}
 						}()
 					}
 					wg.Wait()
-					if bad.Load() > 0 {
-						vh.Die("storm: unexpected action kind")
+					tr.Add(vh.Ev{"ev": "batch", "kind": "storm", "r": e.R, "g": e.G, "n": e.N, "passes": passes.Load()})
+					if o := odd.Load(); o != nil {
+						tr.Add(vh.Ev{"ev": "req", "r": e.R, "g": e.G, "out": o.(string), "synthetic": true})
 					}
-					tr.Add(vh.Ev{"ev": "batch", "r": e.R, "g": e.G, "n": e.N, "passes": passes.Load()})
+				case "pstorm":
+					// `rounds` rounds on ONE key that is already in use: `pre` requests one after the other, then n overlapping
+					// requests released together from a busy-wait barrier by goroutines that live for the whole event (no spawn cost,
+					// no yield between release and the real code), then the clock moves on by d ticks.  Recorded as the same
+					// batch / adv events a burst, a storm and an adv would leave.
+					k := e.N
+					var phase atomic.Int64
+					var done, passes atomic.Int32
+					var odd atomic.Value
+					var wg sync.WaitGroup
+					for i := 0; i < k; i++ {
+						wg.Add(1)
+						go func() {
+							defer wg.Done()
+							for r := 1; r <= e.Rnds; r++ {
+								for spins := 0; phase.Load() < int64(r); spins++ {
+									if spins&0xfff == 0xfff {
+										runtime.Gosched()
+									}
+								}
+								switch out := rn.request(e.R, e.G); out {
+								case "pass":
+									passes.Add(1)
+								case "block":
+								default:
+									odd.Store(out)
+								}
+								done.Add(1)
+							}
+						}()
+					}
+					for r := 1; r <= e.Rnds; r++ {
+						if e.Pre > 0 {
+							pp := 0
+							for i := 0; i < e.Pre; i++ {
+								if rn.request(e.R, e.G) == "pass" {
+									pp++
+								}
+							}
+							tr.Add(vh.Ev{"ev": "batch", "kind": "burst", "r": e.R, "g": e.G, "n": e.Pre, "passes": pp})
+						}
+						passes.Store(0)
+						done.Store(0)
+						phase.Store(int64(r))
+						for spins := 0; done.Load() < int32(k); spins++ {
+							if spins&0xfff == 0xfff {
+								runtime.Gosched()
+							}
+						}
+						tr.Add(vh.Ev{"ev": "batch", "kind": "storm", "r": e.R, "g": e.G, "n": k, "passes": passes.Load()})
+						if o := odd.Load(); o != nil {
+							tr.Add(vh.Ev{"ev": "req", "r": e.R, "g": e.G, "out": o.(string), "synthetic": true})
+							odd = atomic.Value{}
+						}
+						now += e.D
+						rn.clk.Set(at(now))
+						tr.Add(vh.Ev{"ev": "adv", "d": e.D})
+					}
+					wg.Wait()
 				case "conc":
 					var wg sync.WaitGroup
 					start := make(chan struct{})
